@@ -29,6 +29,16 @@ Theorem C02_extraction_identical : forall ovf m content store, Geometry m conten
   extract Extractor_tail_from_start store ovf m = Ok (spec_files m content).
 Proof. exact extract_ok. Qed.
 
+(* no waiting for an Unchoke that will not come: a peer that does not choke us, holds no assignment, and announces a
+   piece we miss is asked for it in the same exchange *)
+Theorem C02_idle_announcer_asked : forall m a i pick p st m' r bc sp,
+  pget (m_peers m) a = Some p -> nthN (m_status m) i = Some st ->
+  is_missing st = true -> p_am_interested p = false -> p_choked p = false -> p_piece_index p = None ->
+  mstep m (CHave a i) pick = Ok (m', r, bc, sp) ->
+  exists l, r = RHave_IntReq i l /\ nthN (m_status m') i = Some (Reserved 1) /\
+            exists p', pget (m_peers m') a = Some p' /\ p_piece_index p' = Some i.
+Proof. exact idle_announcer_is_asked. Qed.
+
 (* no surviving connection crashes on account of its transfer statistics: for every sequence of byte counts, unexpected
    blocks and timer ticks whose per-interval totals fit u64, with and without overflow checks, the statistics code does
    not panic and every report is the mean of the last two intervals (clamped to u32) -- the repaired code; the pinned
@@ -53,3 +63,4 @@ Print Assumptions C02_extraction_identical.
 Print Assumptions C02_stats_exact.
 Print Assumptions C02_stats_pinned_refuted.
 Print Assumptions C02_stats_model_repaired.
+Print Assumptions C02_idle_announcer_asked.
